@@ -3,7 +3,9 @@
 package loop
 
 import (
+	"crypto/ecdsa"
 	"crypto/ed25519"
+	"crypto/elliptic"
 	"crypto/rand"
 	"encoding/pem"
 	"fmt"
@@ -183,4 +185,14 @@ func NewKeyPair(dir, name string) (string, ssh.PublicKey, error) {
 	}
 	sp, err := ssh.NewPublicKey(pub)
 	return p, sp, err
+}
+
+// NewECDSAPublicKey returns a fresh public key of another algorithm (ecdsa-sha2-nistp256) than the
+// servers' ed25519 host keys.
+func NewECDSAPublicKey() (ssh.PublicKey, error) {
+	k, err := ecdsa.GenerateKey(elliptic.P256(), rand.Reader)
+	if err != nil {
+		return nil, err
+	}
+	return ssh.NewPublicKey(&k.PublicKey)
 }
